@@ -92,7 +92,7 @@ def claim_event(src, name: int, prio=6, dst=255):
 
 
 def build_history(pool: Pool, rng: random.Random, sources, n_events: int, claims: dict | None = None,
-                  p_claim=0.15, p_fast=0.35, interleave_fast=True):
+                  p_claim=0.15, p_fast=0.35, interleave_fast=True, p_same_seq=0.0):
     """-> list[Ev].  claims: {src: [NAME ints]} to draw address claims from."""
     events = []
     pending = []          # partially sent fast messages: (remaining frames list)
@@ -121,7 +121,11 @@ def build_history(pool: Pool, rng: random.Random, sources, n_events: int, claims
             key = (d.pgn, src, dst)
             if any(q and (q[0].pgn, q[0].src, q[0].dst) == key for q in pending):
                 continue          # one message at a time per stream (C04 covers overlapping)
-            seqs[key] = (seqs.get(key, -1) + 1) % 8
+            if key in seqs and rng.random() < p_same_seq:
+                pass          # same counter as the previous (completed) message of this stream: restarted sender,
+                              # or exactly 7 other fast messages of the same device in between
+            else:
+                seqs[key] = (seqs.get(key, -1) + rng.choice([1, 1, 1, 2, 5])) % 8
             frames = wire.fast_frames(pb, seqs[key], rng.choice([None, 0xFF]))
             prio = rng.randrange(8)
             q = [Ev(prio, d.pgn, src, dst, f, "fast", msg_no, last=(k == len(frames) - 1), definition=d.id) for k, f in enumerate(frames)]
